@@ -561,6 +561,58 @@ def rule_init(ctx, tu):
     ctx.floor(R, 1)
 
 
+def rule_env_range(ctx, py, tu):
+    """C11.ENV-RANGE -- the engine indexes its per-environment tables (k, D) with the values of mesh_env.  Those values are
+    validated against the network's environment list (C20.EXTIDX), so the table extent handed over as n_env must be the length of
+    that very list, and the tables must have one row / column per entry of it: a filtered or re-ordered list makes a valid cell
+    environment index point past the tables."""
+    import ast
+    from .. import pysym, ffi, pyfe
+    R = "C11.ENV-RANGE"
+    su = py.fn("librdengine.LibRDEngine.setup")
+    whole = ("script.system.network.environments", "list(script.system.network.environments)",
+             "script.system.network.environments.copy()", "script.system.network.environments[:]",
+             "tuple(script.system.network.environments)")
+    n = 0
+    for c in pyfe.calls_in(su):
+        if not (isinstance(c.func, ast.Attribute) and c.func.attr in ("_setup_grid", "_setup_graph")):
+            continue
+        callee = py.fn("librdengine.LibRDEngine." + c.func.attr)
+        ps = [p_ for p_ in pyfe.params(callee) if p_ != "self"]
+        bound = dict(zip(ps, c.args))
+        bound.update({k.arg: k.value for k in c.keywords})
+        ctx.need("environments" in bound, R, "%s: no `environments` argument" % c.func.attr)
+        src = pysym.isrc(bound["environments"], su).replace(" ", "")
+        n += 1
+        ctx.check(src in whole, R, c, su._qual, "%s(environments = %s)" % (c.func.attr, src[:60]), "the network's whole "
+                  "environment list, in its order", "the engine's environment tables are built from `%s`, not from the whole "
+                  "network.environments list the cell environment indices refer to: an index that is valid for the network reads "
+                  "past k / D" % src[:60])
+    tab = {"engineexport_initialize_grid": "_setup_grid", "engineexport_initialize_graph": "_setup_graph"}
+    for fn, call, name in ffi.call_sites(py):
+        if name not in tab:
+            continue
+        f = tu.fn(name)
+        stored = {x.id for x in ast.walk(fn) if isinstance(x, ast.Name) and isinstance(x.ctx, ast.Store)}
+        for a, p_ in zip(call.args, f.params):
+            pn = p_.get("name")
+            t = pysym.isrc(a, fn).replace(" ", "")
+            if pn == "n_env":
+                n += 1
+                ctx.check(t in ("ctypes.c_int(len(environments))", "c_int(len(environments))") and "environments" not in stored,
+                          R, a, fn._qual, "n_env <- %s" % t[:50], "length of the environment list", "n_env is not the length of "
+                          "the environment list the tables are built from")
+            elif pn in ("k", "D"):
+                n += 1
+                builders = [x for x in ast.walk(pysym.inline(a, fn)) if isinstance(x, ast.Call) and pyfe.call_name(x).startswith("build_")]
+                okb = len(builders) == 1 and any(pyfe.src(y) == "environments" for y in list(builders[0].args) +
+                                                 [k_.value for k_ in builders[0].keywords]) and "environments" not in stored
+                ctx.check(okb, R, a, fn._qual, "%s <- %s" % (pn, t[:60]), "tabulated over that same list", "the table %s is not "
+                          "built over the environment list whose length is passed as n_env" % pn)
+    ctx.need(n >= 8, R, "only %d instances" % n)
+    ctx.floor(R, 8)
+
+
 def run(ctx):
     tu = ctx.cx
     I = idxmod.Idx(tu)
@@ -579,6 +631,7 @@ def run(ctx):
     from .. import ffi
     ffi.rule_sig(ctx, "C11.FFI")
     ffi.rule_extent(ctx, "C11.FFI-EXTENT", I, ptr_req)
+    rule_env_range(ctx, ctx.py, tu)
     # lifecycle part of memory safety (shared rules, reported under this property's ids)
     flag = c10.find_flag(ctx, tu)
     n0 = len(ctx.insts)
